@@ -191,7 +191,12 @@ class AliasMixin:
         # (in this example, X -> Z, Y -> Z)
         aliases = copy.deepcopy(self.ALIASES)
 
-        while True:
+        # A name that points to itself is not an alias: drop it before the loop
+        # (otherwise it is in both the keys and the values forever)
+        aliases = {k: v for k, v in aliases.items() if k != v}
+
+        # Without a cycle, `len(aliases)` substitutions are always enough
+        for _ in range(len(aliases) + 1):
             # Check for chained aliases by testing to see if there are any
             # shared names between the keys and values. If so, there is at
             # least one link that can still be shortened
@@ -206,6 +211,11 @@ class AliasMixin:
             # leave X -> Z
             # Repeating the loop carries out successive substitution
             aliases = {k: aliases.get(v, v) for k, v in aliases.items()}
+        else:
+            raise ValueError(
+                '`ALIASES` contains a cycle: one or more aliases never '
+                'resolve to a model variable'
+            )
 
         # Remove any variables that point to themselves and then store
         aliases = {k: v for k, v in aliases.items() if k != v}
